@@ -48,6 +48,8 @@ def hLimits (inp out : Json) : Except String Findings := do
   let fs := diff fs "delete(translated)" d g.2
   let fs := spec fs "C03.cap" (Spec.C03.limitsCap p d)
   let fs := spec fs "C09.createCap" (Spec.C09.createCap p c)
+  -- C09 "deletes at most maxUnavailable pods for updating per sync" on the kernel's own answer
+  let fs := spec fs "C09.deleteCap" (Spec.C03.limitsCap p d)
   return fs
 
 def outcomeStr {α} [ToString α] : Outcome α → String
@@ -195,6 +197,9 @@ def hManageDeployment (inp out : Json) : Except String Findings := do
       let fs := spec fs "C08.frozen-no-create" (!o.isFrozen || o.create.isEmpty)
       let fs := spec fs "C08.flags" (o.isPaused == (SMap.get? p.edsAnnotations K.rollingUpdatePausedAnnot == some "true")
                                       && o.isFrozen == (SMap.get? p.edsAnnotations K.rolloutFrozenAnnot == some "true"))
+      let fs := match resolveIntOrPercent ru.maxUnavailable n with
+        | some mu => spec fs "C09.delete-bound" (decide ((o.delete.length : Int) ≤ max 0 mu))
+        | none => fs
       let fs := spec fs "C09.create-bound" (Spec.C09.createBound ru n (rollingUpdateStartTime p.ers.status pj.now) pj.now o.create.length)
       let fs := spec fs "C01.create-only-empty" (o.create.all (fun nm =>
                   match es.find? (fun e => e.1.node.name == nm) with
@@ -747,6 +752,14 @@ def hEdsReconcile (inp out : Json) : Except String Findings := do
   let fs := spec fs "C07.status-before-spec" (match o.order.findIdx? (·.startsWith "update:EDS"), o.order.findIdx? (·.startsWith "status:EDS") with
       | some iu, some is_ => is_ < iu
       | _, _ => true)
+  -- a reconcile one of whose List calls failed (read fault): the model does not follow it, so only the
+  -- safety clauses are judged on what it wrote — in particular a percentage of canary replicas must not
+  -- silently be resolved against something else than the targeted nodes (C15), the list must not grow (C04)
+  let readFault : Bool := (inp.getObjValAs? Bool "readFault").toOption.getD false
+  let safety := ["SPEC C15.count-vs-targeted", "SPEC C04.list-growth", "SPEC C12.writes-owned", "SPEC C12.no-adoption",
+    "SPEC C13.create-only-if-none", "SPEC C13.cleanup-safe", "SPEC C05.status-active", "SPEC C16.reconcile-no-crash(EDS)",
+    "SPEC C07.status-before-spec"]
+  let fs := if readFault then fs.filter (fun t => safety.any (fun p => t.startsWith p)) else fs
   return fs
 
 /-! ### ExtendedDaemonSetReplicaSet Reconcile (L2) -/
